@@ -556,8 +556,19 @@ def numpy_ns(**extra):
                logical_not=un(lambda x: not x), logical_and=bi(lambda x, y: bool(x) and bool(y)), logical_or=bi(lambda x, y: bool(x) or bool(y)),
                logical_xor=bi(lambda x, y: bool(x) != bool(y)), minimum=bi(min), maximum=bi(max),
                )
+    def add_at(a, idx, v):
+        """np.add.at: unbuffered a[idx] += v (an index that occurs k times is incremented k times)"""
+        if not isinstance(a, NDArr) or a.ndim != 1:
+            raise ModelError('ndarr: np.add.at on another target than a one-dimensional array')
+        idx, v = _raw(idx), _raw(v)
+        pairs = list(_flat(_bc(idx, v, lambda i_, x_: (i_, x_)))) if isinstance(idx, list) or isinstance(v, list) else [(idx, v)]
+        for i, x in pairs:
+            if isinstance(i, bool) or not hasattr(i, '__index__'):
+                raise ModelError('ndarr: np.add.at with a non-integer index')
+            a[i] = a[i] + x
     fns.update(extra)
     out = NumpyNS(**{k: stub(v) for k, v in fns.items()})
+    out.add = NS(at=stub(add_at))
     for nm in DTYPES:
         setattr(out, nm, DType(nm))
     return out
